@@ -466,7 +466,7 @@ _XSD_RE = {
     "GMonthDay": _re.compile(rf"--(?P<m>0[1-9]|1[0-2])-(?P<d>[0-9]{{2}}){_TZ}"),
     "Duration": _re.compile(r"-?P(?=[0-9T])([0-9]+Y)?([0-9]+M)?([0-9]+D)?(T(?=[0-9])([0-9]+H)?([0-9]+M)?([0-9]+(\.[0-9]+)?S)?)?"),
     "HexBinary": _re.compile(r"([0-9a-fA-F]{2})*"),
-    "Base64Binary": _re.compile(rf"(({_B64} ?){{4}})*(({_B64} ?){{3}}{_B64}|({_B64} ?){{2}}[AEIMQUYcgkosw048] ?=|{_B64} ?[AQgw] ?= ?=)?"),
+    "Base64Binary": _re.compile(rf"((({_B64} ?){{4}})*(({_B64} ?){{3}}{_B64}|({_B64} ?){{2}}[AEIMQUYcgkosw048] ?=|{_B64} ?[AQgw] ?= ?=))?"),
 }
 _XSD_RE["Double"] = _XSD_RE["Float"]
 
@@ -716,7 +716,7 @@ for _t in XSD_RANGES:
 def modelled(ty: str, s: str) -> bool:
     """False where the Lean model is knowingly not faithful: Unicode digits / white space for \\d, int(), float(), Decimal()"""
     if ty in ("String", "AnyURI", "NormalizedString", "Boolean", "Base64Binary", "HexBinary"):
-        return "\ud800" > max(s, default="a") or not any("\ud800" <= c <= "\udfff" for c in s)
+        return True
     return all(ord(c) < 128 or not (c.isdecimal() or c.isdigit() or c.isnumeric() or c.isspace()) for c in s)
 
 
